@@ -114,12 +114,21 @@ def check_mixed_precision(case, ctx):
     pa, pb = rng.sample([5, 8, 12, 18], 2)
     lo, hi = min(pa, pb), max(pa, pb)
     delta = 10.0 ** (-rng.uniform(lo + 0.5, min(hi, 15) - 0.5)) if min(hi, 15) - lo >= 1.5 else 10.0 ** (-(lo + 0.7))
+    sd = copy.deepcopy(sd)
+    if rng.random() < 0.5:
+        # large coordinates (offsets of 1e3 / 1e6): the comparison tolerance is an absolute number of decimals, not relative to them
+        off = rng.choice([1e3, 1e6])
+        sd['ctrlpts'] = [[c + off for c in pt] for pt in sd['ctrlpts']]
+        delta = max(delta, 4e-10 * off)          # (keep the difference representable next to the offset)
+        ctx.tag('precision:large-coordinates')
+        if delta >= 10.0 ** (-lo - 0.2):
+            raise Reject()
     bsd = copy.deepcopy(sd)
     what = rng.choice(['coord', 'coord', 'knot']) if any(len(kv) > 2 * (p + 1) for kv, p in zip(sd['kvs'], sd['degrees'])) else 'coord'
     if what == 'coord':
         i = rng.randrange(len(bsd['ctrlpts']))
         j = rng.randrange(len(bsd['ctrlpts'][i]))
-        bsd['ctrlpts'][i][j] += delta * max(1.0, abs(bsd['ctrlpts'][i][j]))
+        bsd['ctrlpts'][i][j] += delta
     else:
         d = rng.choice([d for d, (kv, p) in enumerate(zip(sd['kvs'], sd['degrees'])) if len(kv) > 2 * (p + 1)])
         i = rng.randrange(sd['degrees'][d] + 1, len(sd['kvs'][d]) - sd['degrees'][d] - 1)
@@ -131,6 +140,15 @@ def check_mixed_precision(case, ctx):
     ctx.nontriv(True)
     ctx.tag('mixed-precision', 'pdim%d' % sd['pdim'])
     ab, ba = (a == b), (b == a)
+    # two shapes of the SAME (coarse) precision that differ by 30x its tolerance are not equal, whatever the size of the coordinates
+    c1, c2 = G.build(sd, precision=lo), None
+    bsd2 = copy.deepcopy(sd)
+    i2 = rng.randrange(len(bsd2['ctrlpts']))
+    bsd2['ctrlpts'][i2][0] += 30.0 * 10.0 ** (-lo)
+    c2 = G.build(bsd2, precision=lo)
+    if not sd['rational']:
+        ctx.check((c1 == c2) is False and (c2 == c1) is False, 'unequal-not-detected/precision', 'two precision=%d shapes whose control point differs by '
+                  '%.3g (30x the tolerance) compare equal' % (lo, 30.0 * 10.0 ** (-lo)), what='unequal-detected')
     ctx.check(ab == ba, 'symmetric/mixed-precision', '(a == b) = %r but (b == a) = %r for shapes created with precision=%d and precision=%d '
               'whose %s differs by %.3g' % (ab, ba, pa, pb, what, delta), what='symmetric')
     ctx.check((a != b) == (not ab) and (b != a) == (not ba), 'ne-consistent', '!= is not the negation of == (mixed precision)',
